@@ -57,6 +57,8 @@ def rec_body(ty):
         al = '_Alignas(%d) ' % it['alignas'] if it.get('alignas') else ''
         if it.get('alignas_type'):
             al = '_Alignas(%s) ' % it['alignas_type']
+        for x, before in it.get('alignas_extra', []):       # several specifiers: the strictest one counts (6.7.5p6)
+            al = ('_Alignas(%d) ' % x + al) if before else (al + '_Alignas(%d) ' % x)
         if it['kind'] == 'u':
             t = it['ty']
             tn = t.cname if t.kind == 'scalar' else 'T%d' % t.id     # typedef name for enums (enum E : w would be ambiguous)
@@ -205,8 +207,6 @@ def gen_rec(tu, depth, allow_flex=False, force_struct=None, style='main'):
             isbool = t.kind == 'scalar' and t.id == 0
             if rng.random() < 0.25:
                 w = rng.choice([0, 0, rng.randint(0, 8 * t.size)]) if not isbool else rng.choice([0, 1])
-                if not is_struct and w > 0 and style != 'union_unnamed':
-                    w = 0           # unions with an unnamed non-zero bit-field: separate stream (known finding)
                 items.append(dict(kind='u', ty=t, width=w))
                 pos = pos + w if w else (pos + 8 * t.size - 1) // (8 * t.size) * (8 * t.size)
             else:
@@ -249,6 +249,9 @@ def gen_rec(tu, depth, allow_flex=False, force_struct=None, style='main'):
             at = rng.choice(cand)
             it['alignas_type'] = at.cname
             it['alignas'] = at.align
+        if it['alignas'] and rng.random() < 0.3:
+            it['alignas_extra'] = [(rng.choice([0] + [a for a in (1, 2, 4, 8, 16, 32) if nat <= a <= it['alignas']]), rng.random() < 0.5)
+                                   for _ in range(rng.randint(1, 2))]
         items.append(it)
         named += 1
         pos += 8 * sz
@@ -308,8 +311,6 @@ def gen_enum(tu, style='main'):
         r = rng.random()
         if style == 'fixed_unsigned_implicit' and k == 0:
             r = 1.0
-        elif fixed and not fixed.signed and k == 0:
-            r = 0.0      # first implicit enumerator of a fixed unsigned enum: known finding, separate stream
         if r < 0.5:
             if fixed:
                 bits = 8 * fixed.size
@@ -424,6 +425,10 @@ def parse_il_data(il):
             if not t:
                 continue
             if t[0] == 'z':
+                if int(t[1]) > (1 << 22) or len(b) > (1 << 22):
+                    res[m.group(1)] = b'<object larger than 4 MiB>'
+                    b = None
+                    break
                 b += bytes(int(t[1]))
             elif t[0] in 'bhwl' and len(t[0]) == 1:
                 n = {'b': 1, 'h': 2, 'w': 4, 'l': 8}[t[0]]
@@ -435,7 +440,8 @@ def parse_il_data(il):
                         b += (int(v) & ((1 << (8 * n)) - 1)).to_bytes(n, 'little')
             else:
                 b += b'?'
-        res[m.group(1)] = bytes(b)
+        if b is not None:
+            res[m.group(1)] = bytes(b)
     return res
 
 
@@ -608,12 +614,12 @@ class Case:
 def classify(case, r, tgt_rules, model_agrees, spec_agrees_ref):
     """narrow key for a cproc-vs-platform-compiler layout disagreement"""
     if model_agrees and spec_agrees_ref:
-        if contains(r, is_union_unnamed):
-            return 'union-unnamed-bitfield-size'
-        if contains(r, is_packed_alignas):
-            return 'packed-alignas-size-not-rounded'
         if tgt_rules == 'aapcs64' and contains(r, has_unnamed_bf):
             return 'aarch64-unnamed-bitfield-align'
+        if contains(r, is_packed_alignas):
+            return 'packed-alignas-size-not-rounded'
+    if contains(r, is_union_unnamed) and tgt_rules == 'sysv':
+        return 'union-unnamed-bitfield-size'        # fixed in /repo; a reappearance is reported under the old key
     return 'layout-mismatch'
 
 
@@ -718,6 +724,10 @@ def table_checks(ctx, snap):
 def run(ctx):
     rng = ctx.rng
     thorough = ctx.tier == 'thorough'
+    rdir = os.path.join(vlib.VERIF, 'evidence', 'replay')
+    for fn in os.listdir(rdir) if os.path.isdir(rdir) else []:
+        if fn.startswith('C06-'):
+            os.unlink(os.path.join(rdir, fn))       # replays of earlier runs of this property
     snap = ctx.snapshot()
     ok = ctx.coq(['Properties/%s.vo' % MODULE, 'Extract/Extract_c06.vo'])
     if ok:
@@ -725,7 +735,7 @@ def run(ctx):
     oracle = ctx.oracle('c06') if ok else None
     stats = dict(units=0, records=0, probes=0, images=0, targets=3, enums=0, enum_consts=0, arrays=0, malformed=0,
                  ref_rejected=0, gcc_units=0, clang_units=0, known_hits={}, bitfields=0, unnamed_bf=0, packed=0, unions=0,
-                 anon=0, alignas=0, flex=0, nested_depth={}, spec_checked=0)
+                 anon=0, alignas=0, flex=0, spec_checked=0)
     samples = []
     nontrivial = set()
     vio_budget = {}
@@ -739,9 +749,10 @@ def run(ctx):
 
     if snap and oracle and os.path.exists(os.path.join(snap, 'cproc-qbe')):
         table_checks(ctx, snap)
+        run_corpus(ctx, stats, report)
         # ---------------------------------------------------------------- layout stream
-        plan = [('main', 150 if not thorough else 2500), ('packed_alignas', 8 if not thorough else 60),
-                ('union_unnamed', 8 if not thorough else 60)]
+        plan = [('main', 520 if not thorough else 6000), ('packed_alignas', 10 if not thorough else 80),
+                ('union_unnamed', 16 if not thorough else 120)]
         cases = []
         for style, n in plan:
             for _ in range(n):
@@ -789,7 +800,15 @@ def run(ctx):
             res['gcc'] = compile_ref(ctx, src, None, 'gcc')
             return case, orc, src, res
 
-        for case, orc, src, res in vlib.parallel_map(do_case, cases):
+        def do_case_safe(case):
+            try:
+                return do_case(case)
+            except Exception as ex:
+                return case, None, case.source(), ex
+        for case, orc, src, res in vlib.parallel_map(do_case_safe, cases):
+            if orc is None:
+                ctx.broken('correspondence', 'layout case could not be evaluated (%s)' % type(res).__name__, '%r\n%s' % (res, src[:3000]))
+                continue
             stats['units'] += 1
             exp = case.expected(orc)
             for r in case.recs:
@@ -853,6 +872,9 @@ def run(ctx):
                             if vio_budget.get(key, 0) < 2:
                                 try:
                                     small = shrink_case(ctx, case, r.id, tname, triple, None)
+                                    dd = [x for x in compare_source(ctx, small) if x[0] == tname]
+                                    if dd:
+                                        what = '%s on %s: %s' % ('struct' if r.is_struct else 'union', tname, '; '.join(x[2] for x in dd[:3]))
                                 except Exception as ex:
                                     small = src
                                 report(what, '// cproc-qbe -t %s vs %s --target=%s\n%s' % (tname, which, triple, small), key)
@@ -911,7 +933,7 @@ def gen_enum_known(tu):
 
 def run_enums(ctx, oracle, stats, nontrivial, samples, report, thorough):
     rng = ctx.rng
-    n = 160 if not thorough else 3000
+    n = 420 if not thorough else 6000
     enums = []
     for i in range(n):
         tu = TU(rng)
@@ -976,8 +998,14 @@ def run_enums(ctx, oracle, stats, nontrivial, samples, report, thorough):
                        'enum-mismatch')
             if rc != 0 and okc and orc['spec'] is not None:
                 key = 'enum-valid-rejected'
-                if e.fixed and not e.fixed.signed and orc.get('err') == 'EEnumNoType':
-                    key = 'enum-fixed-unsigned-implicit-zero-rejected'
+                first_err = next((i for i, l in enumerate(orc['steps']) if l.startswith('e err')), None)
+                if orc.get('err') == 'EEnumNoType' and first_err == 0:
+                    key = 'enum-fixed-unsigned-implicit-zero-rejected'      # fixed in /repo; a reappearance keeps the old key
+                elif orc.get('err') == 'EEnumNoType':
+                    # previous value + 1 has no type of the predecessor's signedness (LLONG_MAX + 1, ULLONG_MAX + 1):
+                    # C23 6.7.2.2 makes this a constraint violation (gcc >= 13 "overflow in enumeration values"); clang 14 only warns
+                    stats['enum_overflow_rejected'] = stats.get('enum_overflow_rejected', 0) + 1
+                    continue
                 if tname == 'x86_64-sysv':
                     report('valid enum rejected by cproc (%s), accepted by clang: %s' % (got, e.text), src, key)
         # the Coq specification against clang
@@ -1051,7 +1079,7 @@ def run_malformed(ctx, oracle, stats, nontrivial, report, thorough):
                 report('GNU aligned(n) accepted but ignored: sizeof %r, gcc %r' % (got, u64s(dg2.get('v', b''))), full, 'gnu-aligned-ignored')
     # array sizes: the overflow check of declarator
     arrs = []
-    for _ in range(40 if not thorough else 400):
+    for _ in range(80 if not thorough else 800):
         esz = rng.choice([1, 2, 4, 8, 16, 24])
         et = {1: 'char', 2: 'short', 4: 'int', 8: 'long', 16: 'long double', 24: 'struct { long a, b, c; }'}[esz]
         tot = rng.choice([1 << 64, 1 << 63, 1 << 62, (1 << 64) - 1, rng.randint(1, 1 << 20)])
@@ -1088,11 +1116,64 @@ def n_zero(a):
     return a[2] == 0
 
 
+def compare_source(ctx, src):
+    """cproc vs clang on the three targets: list of (target, kind, detail) differences; kind in reject/accept/value"""
+    diffs = []
+    for tname, triple, rules in TARGETS:
+        rc, out, err = ctx.qbe(src, target=tname)
+        okc, ref = compile_ref(ctx, src, triple, 'clang')
+        if rc != 0 and okc:
+            diffs.append((tname, 'reject', err.strip()[:160]))
+        elif rc == 0 and not okc:
+            diffs.append((tname, 'accept', 'clang: ' + str(ref).strip()[:160]))
+        elif rc == 0:
+            got = parse_il_data(out)
+            for k in sorted(ref):
+                if k[0] in 'vx' and got.get(k) != ref[k]:
+                    a, b = got.get(k), ref[k]
+                    diffs.append((tname, 'value', '%s: cproc %s, clang %s' % (k, (u64s(a) if k[0] == 'v' else a.hex()) if a is not None else None,
+                                                                            u64s(b) if k[0] == 'v' else b.hex())))
+    return diffs
+
+
+def run_corpus(ctx, stats, report):
+    d = os.path.join(vlib.VERIF, 'corpus', 'findings')
+    files = sorted(f for f in os.listdir(d) if f.startswith('C06-') and f.endswith('.c')) if os.path.isdir(d) else []
+    ok = True
+    for fn in files:
+        src = open(os.path.join(d, fn)).read()
+        m = re.match(r'// C06 key=(\S+) status=(\w+)(?: expect=(\w+))?', src)
+        if not m:
+            continue
+        key, status, expect = m.groups()
+        mt = re.search(r'^// targets=(\S+)', src, re.M)
+        diffs = compare_source(ctx, src)
+        if mt:
+            diffs = [x for x in diffs if x[0] in mt.group(1).split(',')]
+        stats['corpus'] = stats.get('corpus', 0) + 1
+        if expect == 'reject':
+            rcs = [ctx.qbe(src, target=t[0])[0] for t in TARGETS]
+            if any(rc == 0 for rc in rcs):
+                report('regression (%s): cproc accepts %s' % (fn, src.split('\n')[2][:120]), src, key)
+            continue
+        if diffs:
+            report('%s %s: %s' % ('known finding' if status == 'known' else 'REGRESSION of a fixed defect', fn,
+                                  '; '.join('%s %s' % (t, dd) for t, k, dd in diffs[:4])), src, key)
+            if status != 'known':
+                ok = False
+        elif status == 'known':
+            ctx.notes.append('known finding %s (corpus %s) no longer reproduces' % (key, fn))
+    ctx.ob('K-CLI:regression corpus corpus/findings/C06-*.c (%d files): fixed defects stay fixed' % len(files), ok)
+
+
 def replay(ctx, path):
     snap = ctx.snapshot()
     src = open(path).read()
     bad = 0
+    mt = re.search(r'^// targets=(\S+)', src, re.M)
     for tname, triple, rules in TARGETS:
+        if mt and tname not in mt.group(1).split(','):
+            continue
         rc, out, err = ctx.qbe(src, target=tname)
         okc, ref = compile_ref(ctx, src, triple, 'clang')
         got = parse_il_data(out) if rc == 0 else None
